@@ -1,6 +1,6 @@
 #!/usr/bin/env python3
 """Run ALL claimed checks against behaviour-preserving refactorings (dirs with patch.diff) on scratch copies of /repo.
-Expected: exit 0 everywhere.  exit 1 = false alarm, exit 2 = analysis broken.   usage: tools/run_refactor.py <dir> [<dir> ...]"""
+Expected: exit 0 everywhere.  exit 1 = false alarm, exit 2 = analysis broken.   usage: tools/run_refactor.py [<dir> ...]   (default: every directory of /verif/refactor)"""
 import json, os, re, shutil, subprocess, sys, tempfile
 from concurrent.futures import ThreadPoolExecutor
 VERIF = os.path.dirname(os.path.dirname(os.path.abspath(__file__)))
@@ -37,7 +37,7 @@ def one(ddir):
 
 
 def main():
-    dirs = sys.argv[1:]
+    dirs = sys.argv[1:] or sorted(os.path.join(VERIF, "refactor", x) for x in os.listdir(os.path.join(VERIF, "refactor")) if os.path.isfile(os.path.join(VERIF, "refactor", x, "patch.diff")))
     bad = 0
     for d in dirs:
         ddir, st, res = one(d)
